@@ -84,7 +84,55 @@ func (c11) Plan(tier string, seed int64) []mon.Workload {
 	if tier == "thorough" {
 		rnd = 200000
 	}
-	return []mon.Workload{{Name: "table", N: n, Exhaustive: true}, {Name: "random", N: rnd}, {Name: "sequences", N: rnd / 2}}
+	return []mon.Workload{{Name: "table", N: n, Exhaustive: true}, {Name: "random", N: rnd}, {Name: "sequences", N: rnd / 2},
+		{Name: "after-error", N: rnd / 4}}
+}
+
+// after-error: "from the script variable of that name IF ONE EXISTS": a
+// variable of an EARLIER run is not one. Each case first runs a script that
+// assigns variables named like the point keys the builtins work on and then
+// fails inside a block (every block form), and straight afterwards runs an
+// ordinary random case, whose outcome must be that of the case run alone.
+var c11Failing = []string{
+	"if true {\n  x = 1 / zero\n}\n",
+	"if false {\n} elif true {\n  x = 1 / zero\n}\n",
+	"if false {\n} else {\n  x = 1 / zero\n}\n",
+	"for i = 0; i < 2; i = i + 1 {\n  x = 1 / zero\n}\n",
+	"for e in [1, 2] {\n  x = 1 / zero\n}\n",
+	"for e in \"ab\" {\n  if e == \"a\" {\n    x = 1 / zero\n  }\n}\n",
+	"for i = 0; i < 2; i = i + 1 {\n  if true {\n    for e in {\"q\": 1} {\n      l = [1]\n      x = l[5]\n    }\n  }\n}\n",
+	"x = 1 / zero\n",
+	"if true {\n  url_decode(bad)\n  cast(bad, \"int\")\n  x = bad[7]\n}\n",
+}
+
+// beforeRealRun, when set, runs between the load and the real run of a
+// builtin case.
+var beforeRealRun func()
+
+var c11PoisonScripts = map[string]*scriptT{}
+
+func c11Poison(c *mon.Ctx) {
+	text := "k = \"stale-variable\"\nmessage = \"stale message\"\no = [\"stale\"]\nb1 = 999\nb2 = nil\nbt = \"stale tag\"\nt2 = 1.5\nzero = 0\nbad = \"%zz\"\n" +
+		c11Failing[c.R.Intn(len(c11Failing))]
+	s := c11PoisonScripts[text]
+	if s == nil {
+		var err error
+		s, err = drive.LoadV1One("poison.p", text)
+		if err != nil {
+			panic("c11: poison script rejected: " + err.Error())
+		}
+		c11PoisonScripts[text] = s
+	}
+	beforeRealRun = func() { c11PoisonRun(c, s) }
+}
+
+func c11PoisonRun(c *mon.Ctx, s *scriptT) {
+	pt := drive.NewPoint("other", map[string]string{"bt": "x"}, map[string]any{"k": "other point"}, time.Unix(1, 0))
+	o := drive.RunV1(s, pt, &drive.RunState{Budget: 5000})
+	c.Eval(1)
+	if o.Err != nil {
+		c.Count("preceding_runs_that_failed_in_a_block", 1)
+	}
 }
 
 type c11Case struct {
@@ -241,6 +289,9 @@ func (k c11) Describe(c *mon.Ctx, workload string, i int64) any {
 		cs := k.sequence(c)
 		return map[string]any{"source": gt.Print(gt.ParenthesizeStmts(cs.Stmts), nil), "point": cs.Point.Show()}
 	}
+	if workload == "after-error" {
+		workload = "random"
+	}
 	cs := k.build(c, workload, i)
 	if cs.Skip {
 		return "skipped combination"
@@ -296,6 +347,16 @@ func (k c11) Run(c *mon.Ctx, workload string, i int64) {
 		runBuiltinCase(c, cs.Stmts, cs.Point, "", ref.Merge(ref.ProbeFuncs(), ref.FieldFuncs()), "c11.p")
 		return
 	}
+	if workload == "after-error" {
+		cs := k.build(c, "random", i)
+		if cs.Skip {
+			return
+		}
+		c11Poison(c)
+		defer func() { beforeRealRun = nil }()
+		runBuiltinCase(c, cs.Stmts, cs.Point, cs.Cell, ref.Merge(ref.ProbeFuncs(), ref.FieldFuncs()), "c11.p")
+		return
+	}
 	cs := k.build(c, workload, i)
 	if cs.Skip {
 		return
@@ -348,6 +409,11 @@ func runBuiltinCaseNorm(c *mon.Ctx, stmts []*gt.T, pt *ref.Point, cell string, f
 	}
 	real := drive.PointFromModel(pt)
 	var ro drive.Outcome
+	if beforeRealRun != nil {
+		// history injected between load and run (the load itself would
+		// re-initialise a pooled task)
+		beforeRealRun()
+	}
 	stdout := drive.CaptureStdout(func() { ro = drive.RunV1(script, real, &drive.RunState{Budget: 20000}) })
 	// the failure note is compared by its documented prefix only
 	if m, ok := model.Fields["pl_msg"].(string); ok && m == ref.PlMsgPrefix {
